@@ -14,7 +14,7 @@ import builtins
 import types
 
 from . import sym
-from .sym import (SInt, SBool, SBuf, SByte, Unsupported, EngineError, is_sym, deep_sym, mk_int, mk_bool,
+from .sym import (SInt, SBool, SBuf, SByte, SRegion, Unsupported, EngineError, is_sym, deep_sym, mk_int, mk_bool,
                   zint, zbool, z3, And, Or, Not)
 
 
@@ -167,7 +167,12 @@ def s_bytearray(I, args, kw):
     if not args:
         return SBuf([], 'bytearray')
     x = args[0]
-    if isinstance(x, (SInt, SBool)):
+    if isinstance(x, SInt):
+        # symbolic size: content not modelled
+        if bool(x < 0):
+            raise ValueError('negative count')
+        return SRegion(x)
+    if isinstance(x, SBool):
         x = sym.engine().concretize(x)
     if isinstance(x, int):
         if x < 0:
@@ -204,6 +209,8 @@ def s_bytes(I, args, kw):
 
 def s_memoryview(I, args, kw):
     (x,) = args
+    if isinstance(x, SRegion):
+        return SRegion(x.n, x.off, x.root, 'view')
     if isinstance(x, SBuf):
         return SBuf(x.store, 'view', x.off, x.n, share=True)
     if isinstance(x, (bytes,)):
@@ -302,6 +309,8 @@ def s_ord(I, args, kw):
 
 def s_len(I, args, kw):
     (x,) = args
+    if isinstance(x, SRegion):
+        return x.n
     d = I._dunder(x, '__len__')
     if d is not None:
         return I.call(d, [x], {})
